@@ -36,6 +36,10 @@ def generate(rng, tier):
                     break
                 toks, info = e2e.rand_options(rng, g, explicit=1.0, quant_prob=1.0)
         base.append("encdec " + " ".join(toks) + " -- " + g.to_text())
+    # the I/O registries (the library's only process-wide mutable objects): file loads through two different
+    # registered readers, concurrently
+    for i in range(24 if tier == "thorough" else 12):
+        base.append(f"readfile {'AB'[i % 2]} {rng.choice([1, 100, 5000])} {rng.getrandbits(20)}")
     cases = []
     seq = []
     for l in base:
